@@ -77,7 +77,7 @@ def env():
         from thermosteam.exceptions import NoEquilibrium, InfeasibleRegion
         _env['exc'] = [(NoEquilibrium, 'VNoEq'), (InfeasibleRegion, 'VInfeasible'), (NotImplementedError, 'VNotImpl'),
                        (RuntimeError, 'VRuntime'), (AssertionError, 'VAssert'),
-                       (FloatingPointError, 'VArith'), (ZeroDivisionError, 'VArith')]
+                       (FloatingPointError, 'VArith'), (ZeroDivisionError, 'VArith'), (IndexError, 'VShape')]
     return _env
 
 def exc_name(ex):
@@ -316,9 +316,10 @@ def gen_cases(rng, tier):
         cases += PENDING          # witnesses of defects whose fix (pending_fixes/) is not in /repo yet
     return cases
 
-# Witnesses of defects of the unchanged tree for which a fix is proposed in pending_fixes/ (run with VERIF_PENDING=1; they move
-# to CORPUS once the fix is in /repo -- and the model of _lever_rule gets the same clip).
-PENDING = [
+# Witnesses of defects for which a fix is proposed in pending_fixes/ and not yet in /repo (run with VERIF_PENDING=1).
+PENDING = []
+# minimised inputs of repaired defects: regression cases that run first
+CORPUS = [
     # _lever_rule: split fraction in (1, 1 + 1e-5] is clamped to 1 and v = F * y is written unclipped: liquid = mol - F y < 0
     {'kind': 'vle', 'mode': 'real', 'phases': 'lg', 'l': [30., 10., 0., 0., 0., 0., 0.], 'g': [0.] * 7, 's': [0.] * 7,
      'spec': {'P': 101325., 'y': ['band', 2. ** -18]}, 'sk': 'Py', 'T0': 298.15, 'P0': 101325., 'co': None, 'draws': []},
@@ -557,7 +558,7 @@ def gen_band_case(rng, mode):
     i, j = sorted(rng.sample(range(3), 2))
     l = [0.] * n; g = [0.] * n
     l[i] = rng.choice([1., 2., 8., 30., 0.5]); l[j] = rng.choice([1., 4., 10., 0.25]); g[i] = rng.choice([0., 1.])
-    key = 'x' if mode == 'real' else rng.choice('xy')     # (real solvers, y= side: defect of the unchanged tree, see PENDING)
+    key = rng.choice('xy')
     first = rng.choice('TP')
     spec = {first: rng.choice(TS) if first == 'T' else rng.choice(PS[:3])}
     draws = [rng.random() for _ in range(48)]
@@ -606,10 +607,10 @@ def gen_vleh_case(rng, mode='stub'):
         else: ops.append(['redist', [rng.choice([0., 0.25, 0.5, 0.75, 1.]) for _ in range(n)]])
         if rng.random() < 0.5: ops.append(['vle', sk, spec])                # the same call again
         else: ops.append(['vle'] + list(one_spec()))
-    if rng.random() < 0.25:
+    if rng.random() < 0.45:
         # the stream gets linked to another stream's data between two flashes (flash, link_with(flow=True), flash again)
         l2, g2, _ = gen_flows(rng, [a + b > 0 or rng.random() < 0.2 for a, b in zip(base['l'], base['g'])])
-        ops += [['link', l2, g2, rng.choice([310., 330.]), rng.choice([90000., 101325.]), False], ['vle', sk, spec]]
+        ops += [['link', l2, g2, rng.choice([310., 330.]), rng.choice([90000., 101325.]), rng.random() < 0.35], ['vle', sk, spec]]
     return {'kind': 'vleh', 'mode': mode, 'phases': base['phases'], 'l': base['l'], 'g': base['g'], 's': base['s'],
             'T0': base['T0'], 'P0': base['P0'], 'co': base['co'], 'draws': base['draws'] or [rng.random() for _ in range(8)],
             'ops': ops, 'spec': {}, 'sk': 'TP'}
@@ -1217,8 +1218,4 @@ def oracle(case):
 def finding_key(case, msg):
     return 'C03:' + msg.split(':')[0]
 
-# witnesses of defects of the unchanged tree: active once the finding is listed in known_findings.txt, or with VERIF_PENDING=1
-# (then `./check C03 quick` on /repo re-establishes them; after the fix of pending_fixes/C03_1 they must stop failing)
-import vf as _vf
-_ALL_WITNESSES = [{'key': 'C03:vle(Py)', 'case': PENDING[0]}, {'key': 'C03:vle(Ty)', 'case': PENDING[1]}]
-WITNESSES = [w for w in _ALL_WITNESSES if (ID, w['key']) in _vf.load_known() or os.environ.get('VERIF_PENDING')]
+WITNESSES = []
